@@ -12,6 +12,7 @@ import (
 	"bufio"
 	"bytes"
 	"encoding/json"
+	"errors"
 	"flag"
 	"fmt"
 	"hash/crc32"
@@ -39,6 +40,7 @@ type Script struct {
 	Free    bool     `json:"free"`
 	Foreign bool     `json:"foreign"` // generated from a model with other constants: skipped steps are expected
 	Seed    int64    `json:"seed"`
+	Werr    int      `json:"werr"` // > 0: the wrapped writer's Werr-th Write returns an error (once): delivery goes on all the same
 }
 
 type ev map[string]interface{}
@@ -61,6 +63,9 @@ func obs(e ev) { curObs = append(curObs, e); emit(obsW, e) }
 // buffer): the diode must deliver the bytes as they were at Write whatever the buffer looks like.
 func payload(m int) []byte {
 	n := 8 + (m%3)*300
+	if m%7 == 3 {
+		n = 70000 // longer than the 64 KiB above which the writer does not recycle its copy
+	}
 	c := n + 16
 	if m%4 == 1 {
 		c = 70 * 1024
@@ -92,6 +97,7 @@ func identify(p []byte) int {
 }
 
 type recWriter struct {
+	failAt   int
 	block    bool
 	closed   bool
 	dstarts  int
@@ -107,6 +113,9 @@ func (r *recWriter) Write(p []byte) (int, error) {
 	vsched.Gate("w.write", func() bool { return !r.block }, nil)
 	stable := crc32.ChecksumIEEE(p) == sum && identify(p) == m
 	obs(ev{"a": "DEnd", "stable": stable})
+	if r.failAt > 0 && r.dstarts == r.failAt {
+		return 0, errors.New("sink failed once")
+	}
 	return len(p), nil
 }
 
@@ -335,7 +344,7 @@ func play(sc Script) (hung bool) {
 	r := &run{sc: sc, threads: map[string]*vsched.G{}, inWrite: map[string]bool{}, pdone: map[string]bool{}}
 	obs(ev{"a": "Reset", "id": sc.ID, "N": sc.N, "P": sc.P, "W": sc.W, "mode": sc.Mode, "block": sc.Block})
 	emit(implW, ev{"a": "Reset", "id": sc.ID, "N": sc.N, "P": sc.P, "W": sc.W, "mode": sc.Mode})
-	r.rw = &recWriter{block: sc.Block}
+	r.rw = &recWriter{block: sc.Block, failAt: sc.Werr}
 	interval := time.Duration(0)
 	if sc.Mode == "poller" {
 		interval = time.Millisecond
